@@ -25,6 +25,10 @@ from pynguin.master_worker.worker import (
 
 _LOGGER = logging.getLogger(__name__)
 
+# Interval (in seconds) at which the master checks whether the worker is still alive
+# while it waits for the result.
+_LIVENESS_CHECK_INTERVAL = 1.0
+
 
 class RunningTask:
     """Represents a running test generation task with its associated worker process."""
@@ -121,6 +125,26 @@ class RunningTask:
         self._start_worker(self._task)
         return True
 
+    def _receive(self) -> WorkerResult:
+        """Wait for the result of the current worker process.
+
+        A crashed worker is normally noticed by an EOF on the pipe.  The EOF only
+        arrives once *every* process holding the sending end has gone, though, and a
+        descendant of the worker (e.g., a test-execution subprocess) inherits that end.
+        If such a descendant outlives the crashed worker, ``recv`` would block for as
+        long as the descendant lives.  Thus, also check that the worker is still alive.
+
+        Returns:
+            Result from the worker process
+
+        Raises:
+            EOFError: If the worker process died without delivering a result
+        """
+        while not self._receiving_connection.poll(_LIVENESS_CHECK_INTERVAL):
+            if not self._worker_process.is_alive() and not self._receiving_connection.poll(0):
+                raise EOFError("Worker process died without delivering a result")
+        return self._receiving_connection.recv()
+
     def get_result(self) -> WorkerResult:
         """Get the result of the running task and restart the worker if necessary.
 
@@ -128,7 +152,7 @@ class RunningTask:
             Result from the worker process
         """
         try:
-            result = self._receiving_connection.recv()
+            result = self._receive()
             self._receiving_connection.close()
             _LOGGER.info(
                 "Received result for task %s: %s", result.task_id, result.worker_return_code
